@@ -460,7 +460,13 @@ func run(c *drv.Ctx) error {
 		n      int64
 		double bool
 	}
-	if rp := os.Getenv("C04_REPLAY"); rp != "" {
+	rp := os.Getenv("C04_REPLAY")
+	if rp == "" && c.Replay != "" {
+		if b, err := os.ReadFile(c.Replay); err == nil && strings.Contains(string(b), `"workload_seed"`) && strings.Contains(string(b), `"crash"`) {
+			rp = c.Replay // a crash-point witness: replay exactly that workload and crash point
+		}
+	}
+	if rp != "" {
 		// replay aid: C04_REPLAY=<replay file of a crash-point violation> [C04_REPLAY_N=<repetitions>]
 		b, err := os.ReadFile(rp)
 		if err != nil {
